@@ -176,7 +176,7 @@ class _Real:
                 r = ctl["res"]
                 if r[0] == "fail":
                     raise UserExc(r[1])
-                return r[1]
+                return None if case.get("none_results") and r[1] % 2 == 0 else r[1]
             mod = asyncstdlib
         else:
             def fn(*args, **kw):
@@ -184,7 +184,7 @@ class _Real:
                 r = ctl["res"]
                 if r[0] == "fail":
                     raise UserExc(r[1])
-                return r[1]
+                return None if case.get("none_results") and r[1] % 2 == 0 else r[1]    # a function may well return None
             mod = functools if lib == "f" else _RefMod
         dec, form = case["dec"], case["form"]
         if form == "bare":
@@ -616,6 +616,16 @@ def cases(tier, rng):
     yield from _decorator_cases()
     yield from _unhashable_cases()
     yield from _history_cases(4 if tier == "quick" else 5)
+    # wrapped functions that return None for some calls (a result like any other); compared with functools alone
+    for _ in range(600 if tier == "quick" else 6000):
+        yield dict(random_case(rng, 12), none_results=True, unmodelled=True)
+    # a positional tuple that LOOKS like a flattened keyword item must not collide with the keyword call
+    for typed in (False, True):
+        for dec in (["paren", 4, typed], ["paren", None, typed]):
+            for a, b in ((P(I1, NO, ["t", [SA, I2]]), P(I1, a=I2)), (P(NO, ["t", [SA, I1]]), P(a=I1)), (P(I1, ["t", [SA, I2]]), P(I1, a=I2))):
+                for x, y in ((a, b), (b, a)):
+                    yield {"kind": "func", "dec": dec, "form": "paren", "ops": [["call", x, ["ok", 1]], ["call", y, ["ok", 2]], ["call", x, ["ok", 3]], ["info"]],
+                           "unmodelled": True}
     nr, maxops = (8000, 12) if tier == "quick" else (60000, 40)
     for _ in range(nr):
         yield random_case(rng, maxops)
